@@ -9,5 +9,6 @@ CONSTANTS
 INVARIANT C04exact
 INVARIANT C04quiet
 INVARIANT C04review
+INVARIANT C04external
 INVARIANT EmitAll
 CHECK_DEADLOCK FALSE
